@@ -203,8 +203,9 @@ func (s *shard[K, V]) Contains(key K) bool {
 	s.l.RLock()
 	defer s.l.RUnlock()
 
-	_, ok := s.m[key]
-	return ok
+	// A key that has only been waited for (see Get) has a placeholder but has not been added.
+	v, ok := s.m[key]
+	return ok && v.Wait == nil
 }
 
 // Range calls f for each key-value pair in this shard.
